@@ -3,9 +3,10 @@
 (* materiallaws/woehlercurve.py on the log2 lattice.                        *)
 (* Every quantity is a power of two and is represented by its exponent:     *)
 (*   SD = 2^a, ND = 2^b, TS = 2^(2 ts), TN = 2^(2 tn), load = 2^x,           *)
-(* failure probabilities are 10 %, 50 %, 90 % (index 1,2,3), for which the   *)
-(* probit difference divided by 2 z_0.9 is d2/2 with d2 = goal - native in   *)
-(* {-2..2}.  k_2 = Inf is the constant Inf (also used for "infinite life").  *)
+(* failure probabilities are Phi((i - 2) z_0.9) for an integer index i       *)
+(* (1, 2, 3 = 10 %, 50 %, 90 %; -2 and 6 lie 4 z_0.9 = 5.13 standard         *)
+(* deviations out), for which the probit difference divided by 2 z_0.9 is    *)
+(* d2/2 with d2 = goal - native.  k_2 = Inf is the constant Inf (also used for "infinite life").  *)
 (* I: transform_to_failure_probability, _make_k, basquin_cycles/_load as     *)
 (*    coded (below_limit = src < ref, k_2 branch, inf handling);             *)
 (* D: the algebraic laws C08 lists, stated on exponents.                     *)
